@@ -55,6 +55,13 @@ func (vc *VC) calleeKey(c *ssa.CallCommon) (key string, fn *ssa.Function, displa
 				}
 			}
 		}
+		// call of a value of a named function type: a type contract may be attached to the type
+		if nt, ok := c.Value.Type().(*types.Named); ok && nt.Obj().Pkg() != nil {
+			if _, isSig := nt.Underlying().(*types.Signature); isSig {
+				k := nt.Obj().Pkg().Path() + ".functype:" + nt.Obj().Name()
+				return k, nil, "functype:" + nt.Obj().Name()
+			}
+		}
 		return "", nil, "dynamic call"
 	}
 	if fn.Pkg != nil && strings.HasPrefix(fn.Pkg.Pkg.Path(), vc.prog.module) {
@@ -103,6 +110,9 @@ func (vc *VC) callMods(c *ssa.CallCommon, li *loopInfo) {
 			}
 		case "delete":
 			li.mods["#map"] = true
+			if len(c.Args) > 0 {
+				vc.noteMapTarget(li, c.Args[0])
+			}
 		case "close":
 			li.mods["#closed"] = true
 			vc.heapKeySort("#closed", types.Typ[types.Bool])
@@ -129,6 +139,9 @@ func (vc *VC) callMods(c *ssa.CallCommon, li *loopInfo) {
 		for _, m := range fc.Modifies {
 			for _, k := range vc.modTargetKeys(fc, m) {
 				li.mods[k] = true
+				if k == "#map" {
+					li.mapOther = true
+				}
 			}
 		}
 		return
@@ -339,6 +352,9 @@ func (vc *VC) applyContract(fc *FuncContract, fn *ssa.Function, c *ssa.CallCommo
 		}
 	}
 	for _, e := range fc.Ensures {
+		if e.Private {
+			continue
+		}
 		kind := "assume"
 		if fc.Extern {
 			kind = "trusted"
@@ -606,7 +622,11 @@ func (vc *VC) applyModifies(fc *FuncContract, env *Env, st *State) {
 			ps = append(ps, r.pred("l!m"))
 		}
 		// callee may also write freshly allocated memory: irrelevant to the caller's known locations
-		vc.assume(vc.guard(), fmt.Sprintf("(forall ((l!m Loc)) (! (=> (not %s) (= (select %s l!m) (select %s l!m))) :pattern ((select %s l!m))))", or(ps...), nw, old, nw))
+		fwd := ""
+		if vc.forwardFrames() {
+			fwd = fmt.Sprintf(" :pattern ((select %s l!m))", old)
+		}
+		vc.assume(vc.guard(), fmt.Sprintf("(forall ((l!m Loc)) (! (=> (not %s) (= (select %s l!m) (select %s l!m))) :pattern ((select %s l!m))%s))", or(ps...), nw, old, nw, fwd))
 		st.heap[k] = nw
 		vc.closureFact(nw, k, newId, 1)
 	}
@@ -722,6 +742,7 @@ func (vc *VC) builtin(b *ssa.Builtin, c *ssa.CallCommon, v ssa.Value, st *State,
 			env := vc.newEnv(st, vc.entrySt)
 			r := ret(vc.mapLenTerm(a, u, env))
 			vc.assume(vc.guard(), ar.le(ixInfo, ar.ix(0), r.S))
+			vc.mapFactsG(st, a.S, u)
 			return r
 		case *types.Chan:
 			I := types.Typ[types.Int]
@@ -801,8 +822,12 @@ func (vc *VC) bulkUpdate(st *State, key string, elem types.Type, in func(l strin
 	old := vc.heapGet(st, key, elem)
 	nw := vc.freshConst("H_"+mangle(key), vc.heapKeySort(key, elem))
 	l := "l!u"
-	vc.assume(vc.guard(), fmt.Sprintf("(forall ((%s Loc)) (! (= (select %s %s) (ite %s %s (select %s %s))) :pattern ((select %s %s))))",
-		l, nw, l, in(l), val(l), old, l, nw, l))
+	fwd := ""
+	if vc.forwardFrames() {
+		fwd = fmt.Sprintf(" :pattern ((select %s %s))", old, l)
+	}
+	vc.assume(vc.guard(), fmt.Sprintf("(forall ((%s Loc)) (! (= (select %s %s) (ite %s %s (select %s %s))) :pattern ((select %s %s))%s))",
+		l, nw, l, in(l), val(l), old, l, nw, l, fwd))
 	st.heap[key] = nw
 }
 
